@@ -618,6 +618,7 @@ def run_contract(contract, xcheck=True, goal_timeout_ms=8000):
                      time=0.0, info=info, pymodel=Model({'static': info}, {})))
     except Exception as e:  # pylint: disable=broad-except
       rep.error = f'static obligations: {e!r}'
+  _native_search_for_undecided(contract, rep)
   rep.paths = ex.paths
   rep.completed = ex.completed
   rep.unsupported = sorted(set(ex.unsupported))
@@ -626,6 +627,38 @@ def run_contract(contract, xcheck=True, goal_timeout_ms=8000):
   rep.axioms = set(axioms.USED)
   rep.wall_s = time.time() - t0
   return rep
+
+
+def _native_search_for_undecided(contract, rep, budget_s=25.0):
+  """An obligation the solvers left open (typically: a counterexample exists
+  but quantified hypotheses keep z3 from completing a model) is handed to the
+  contract's own bounded native search: `small_models()` enumerates concrete
+  models of the contract's inputs in a small stated scope and `replay` runs the
+  real function on each.  A reproduced failure turns the obligation into a
+  refutation with a concrete failing input; otherwise it stays undecided.
+  This is a bounded search and can only refute, never discharge."""
+  open_ = [n for n, o in rep.obligations.items() if o['status'] == 'unknown']
+  if not open_ or not hasattr(contract, 'small_models') or not hasattr(contract, 'replay'):
+    return
+  t0 = time.time()
+  tried = 0
+  for m in contract.small_models():
+    if time.time() - t0 > budget_s:
+      break
+    tried += 1
+    try:
+      r = contract.replay(open_[0], m)
+    except Exception:  # pylint: disable=broad-except
+      continue
+    if r and r.get('outcome') == 'reproduced':
+      for n in open_:
+        o = rep.obligations[n]
+        o['status'] = 'failed'
+        o['model'] = m
+        o['info'] = (f'solver: unknown; refuted by bounded native search over small models '
+                     f'({tried} tried): {r.get("detail", "")}')
+        o['backends'].add('native-search')
+      return
 
 
 def _zb(v):
@@ -743,8 +776,13 @@ class CMContract(Contract):
 
   def drive(self, interp, pyf, args, env, check):
     cm = self.make_cm(interp, pyf, args)
-    if self.between_creation_and_entry(interp, env) and getattr(self, 'old', None) is not None:
-      env['old'] = call_clause(interp, self.old, env)
+    if self.between_creation_and_entry(interp, env):
+      # the (type) invariants of the inputs hold for the state at entry too
+      if getattr(self, 'requires', None) is not None:
+        if not interp.truth(call_clause(interp, self.requires, env)):
+          raise I.Infeasible()
+      if getattr(self, 'old', None) is not None:
+        env['old'] = call_clause(interp, self.old, env)
     entered, exit_fn = interp.enter_cm(cm, None)
     env['entered'] = entered
     for cname, fn in self.clauses('inside_'):
